@@ -22,7 +22,8 @@ SPEC = {
              "interleavings of two-thread templates (create||create, delete||create, delete||lookup, foreign delete, update||lookup, "
              "update||delete, ...), segment-cut and uniform samples of 3-4 thread templates (double delete around a re-claim, zombie "
              "record re-delete), Host spellings (ports, empty port, IPv6 literals, case, trailing dot, junk) against every status/expiry "
-             "variant and registry/cloud fallback entry, boundary/malformed creates, random programs with random schedules. "
+             "variant and registry/cloud fallback entry, boundary/malformed creates, single storage-failure injection at every call of CreateMapping "
+             "(fault gate in the store wrapper), random programs with random schedules. "
              "non-trivial = more than one thread or a non-empty schedule; distinct = distinct case strings"),
     "trusted_base": [
         "Lean 4.33 kernel; axioms propext, Classical.choice, Quot.sound only (audited per theorem on every run)",
@@ -33,7 +34,7 @@ SPEC = {
     ],
     "assumptions": [
         "names are compared as byte strings, as the code does (a case variant is a different name); DNS case-insensitivity is out of scope",
-        "the delete claim's lease (30 s) outlives one DeleteMapping call; storage failures (rollback paths) are not injected",
+        "the delete claim's lease (30 s) outlives one DeleteMapping call; storage failures are injected for CreateMapping only (single failure, sequential: C19_failed_create_leaves_nothing), not inside interleavings and not for DeleteMapping",
         "expiry values used by the harness are far from the wall clock, so the model's explicit clock and time.Now() agree",
         "registry (deprecated in-memory source) and cloud control are static tables per case; the registry step is atomic with the preceding storage step",
     ],
